@@ -284,6 +284,73 @@ def kind_monitor(case, line):
     return None
 
 
+# ------------------------------------------------------------------ API-level completion
+API_NAMES = ["work", "work0", "rnd", "fs_stat", "fs_lstat", "fs_missing", "fs_access", "fs_scandir", "fs_realpath",
+             "gai", "gni"]
+EAI_CANCELED = -3003
+KEY_FORK = "fork_child_inherits_slow_io_count"
+
+
+def api_cases():
+    return ["%s %d %s %d" % (a, fill, fate, -2 if a == "fs_missing" else 0)
+            for a in API_NAMES for fill in (0, 0x5A, 0xFF) for fate in ("run", "cancel", "busy")]
+
+
+def api_fields(line):
+    return dict(kv.split("=", 1) for kv in line.split() if "=" in kv)
+
+
+def api_monitor_for(full):
+    def monitor(case, line):
+        api, fill, fate, wres = case.split()
+        what = "%s on memory filled with 0x%02X, %s" % (
+            {"work": "uv_queue_work", "work0": "uv_queue_work(after_work_cb = NULL)", "rnd": "uv_random",
+             "gai": "uv_getaddrinfo", "gni": "uv_getnameinfo"}.get(api, "uv_" + api), int(fill),
+            {"run": "run to completion", "cancel": "cancelled while queued", "busy": "uv_cancel while running/finished"}[fate])
+        f = api_fields(full.get(case, ""))
+        if set(f) != {"sub", "can", "cbs", "st", "unreg", "run", "close"}:
+            return "%s: harness ended with %r" % (what, full.get(case, ""))
+        if f["sub"] != "0":
+            return "%s: submission failed with %s" % (what, f["sub"])
+        want_can = {"run": "-", "cancel": "0", "busy": str(EBUSY)}[fate]
+        if f["can"] != want_can:
+            return "%s: uv_cancel returned %s, expected %s" % (what, f["can"], want_can)
+        want_cbs = "0" if api == "work0" else "1"
+        if f["cbs"] != want_cbs:
+            return "%s: %s completion callbacks, expected %s" % (what, f["cbs"], want_cbs)
+        if api != "work0":
+            want = str(EAI_CANCELED if api in ("gai", "gni") else ECANCELED) if fate == "cancel" else wres
+            if f["st"] != want:
+                return "%s: the callback reported %s, expected %s" % (what, f["st"], want)
+        if f["unreg"] != "1":
+            return "%s: the request was unregistered %s times (active_reqs does not return to its value)" % (what, f["unreg"])
+        if f["run"] != "0" or f["close"] != "0":
+            return "%s: afterwards uv_run returns %s and uv_loop_close %s" % (what, f["run"], f["close"])
+        return None
+    return monitor
+
+
+def fork_cases():
+    out = []
+    for n in (1, 2, 3, 4, 5, 8):
+        cap = (n + 1) // 2
+        for k in sorted(set([0, 1, cap - 1, cap, cap + 1]) - {-1}):
+            if 0 <= k <= 8:
+                out.append("%d %d" % (n, k))
+    return out
+
+
+def fork_monitor(case, line):
+    f = line.split()
+    if len(f) != 3:
+        return "fork harness ended with %r" % line
+    if f[1] != "cpu=1":
+        return "the CPU request of the forked child did not complete"
+    if f[0] != "slow=1" or f[2] != "v0":
+        return "KNOWN:" + KEY_FORK
+    return None
+
+
 def harness_error(line):
     return any(w in HARNESS_ERR for w in line.split()[-2:]) or line.strip() == ""
 
@@ -296,6 +363,8 @@ def main():
         lib = vf.build_libuv(chk.scratch, "ndebug")
         hpool = vf.cc_harness(chk.scratch, "c08_pool", ["c08_pool.c"], lib=lib, wraps=WRAPS)
         hkinds = vf.cc_harness(chk.scratch, "c08_kinds", ["c08_kinds.c"], lib=lib, wraps=["uv__work_submit"])
+        hapi = vf.cc_harness(chk.scratch, "c08_api", ["c08_api.c"], lib=lib)
+        hfork = vf.cc_harness(chk.scratch, "c08_fork", ["c08_fork.c"], lib=lib)
         model = vf.model_bin("C08")
     except vf.BuildError as e:
         chk.violation("build failed: %s" % str(e)[:300], {"kind": "build", "log": str(e)}, found_input=False)
@@ -328,14 +397,60 @@ def main():
         chk.cov["kind_table"] = {"cases": len(kc), "apis": 2 + len(FS_OPS) + 2,
                                  "getnameinfo_flag_values": sum(1 for c in kc if c.startswith("gni"))}
 
+    # API-level completion: every public submitter through its own completion wrapper
+    def api_part(ac):
+        sdir = os.path.join(chk.scratch.dir, "c08_api_dir")
+        os.makedirs(sdir, exist_ok=True)
+        aa, _, _ = vf.run_lines([hapi], ac, env=dict(env, C08_SCRATCH_DIR=sdir), shards=8, timeout=900)
+        ab, _, _ = vf.run_lines([model, "api"], ac)
+        if len(aa) != len(ac):
+            print("HARNESS-ERROR: api harness printed %d lines for %d cases" % (len(aa), len(ac)))
+            chk.scratch.cleanup()
+            sys.exit(2)
+        full = dict(zip(ac, aa))
+        cmp_lines = []
+        for l in aa:
+            f = api_fields(l)
+            cmp_lines.append("cbs=%s st=%s unreg=%s" % (f.get("cbs"), f.get("st"), f.get("unreg"))
+                             if "cbs" in f else l)
+        vf.diff_cases(chk, "completion wrappers of the public APIs = Model/ThreadPool.v complete_api", ac, cmp_lines,
+                      ab, api_monitor_for(full))
+        chk.cov["api_completion_cases"] = len(ac)
+
+    # fork: the child's pool
+    def fork_part(fc):
+        fa, _, _ = vf.run_lines([hfork], fc, env=env, shards=6, timeout=900)
+        cur, _, _ = vf.run_lines([model, "fork"], fc)
+        fix, _, _ = vf.run_lines([model, "forkfix"], fc)
+        if len(fa) != len(fc) or any(w in l for l in fa for w in ("hang", "crash", "initfail", "forkfail", "bad")):
+            print("HARNESS-ERROR: fork harness: %r" % ([l for l in fa if "=" not in l][:2] or len(fa),))
+            chk.scratch.cleanup()
+            sys.exit(2)
+        chk.cov["fork_child_sees_counters"] = sorted(set(l.split()[-1] for l in fa))
+        fa = [" ".join(l.split()[:3]) for l in fa]
+        # the model of the current code inherits the counters; a tree that resets them
+        # (notes/C08_fix_fork_counters.diff) is compared with the fixed model
+        fixed_tree = [a == y and a != x for a, x, y in zip(fa, cur, fix)]
+        chk.cov["fork_fix_present"] = any(fixed_tree)
+        fb = [y if ft else x for ft, x, y in zip(fixed_tree, cur, fix)]
+        vf.diff_cases(chk, "pool of a forked child = Model/ThreadPool.v fork_child", fc, fa, fb, fork_monitor)
+
     if chk.replay:
         rp = __import__("json").load(open(chk.replay))
+        if rp.get("obligation", "").startswith("completion wrappers"):
+            api_part([rp["case"]])
+            chk.finish(level="proof", rule="replay of an API completion case")
+        if rp.get("obligation", "").startswith("pool of a forked child"):
+            fork_part([rp["case"]])
+            chk.finish(level="proof", rule="replay of a fork case")
         if rp.get("obligation", "").startswith("work kind"):
             kind_part([rp["case"]])
             chk.finish(level="proof", rule="replay of a kind-table case")
         cases = [rp["case"]]
     else:
         kind_part(corpus("kinds.txt") + kind_cases(chk.rng, thorough))
+        api_part(api_cases())
+        fork_part(fork_cases())
         cases = corpus("cases.txt")
         cases += [gen_case(chk.rng, small=True) for _ in range(2000 if thorough else 150)]
         cases += [gen_case(chk.rng) for _ in range(12000 if thorough else 450)]
@@ -403,7 +518,10 @@ def main():
 
     chk.finish(
         level="proof",
-        rule="kind table: every public API that uses the pool (uv_queue_work, uv_random, 34 uv_fs_*, uv_getaddrinfo, "
+        rule="API completion: 11 submitters x request memory pre-filled with 0x00/0x5A/0xFF x {run, cancelled while "
+             "queued, uv_cancel while running or finished}: callback count and status, unregistration, uv_run and "
+             "uv_loop_close afterwards; fork: pools of 1-8 threads with 0..cap+1 slow requests running at the fork, the "
+             "child submits one slow and one CPU request; kind table: every public API that uses the pool (uv_queue_work, uv_random, 34 uv_fs_*, uv_getaddrinfo, "
              "uv_getnameinfo with all 64 NI_* flag combinations and other integers) called once per argument set, the "
              "kind handed to uv__work_submit and the queue the request lands in compared with api_kind; "
              "random scripts (1-3 loops, 1-8 pool threads, CPU / fs / getaddrinfo / random requests, uv_cancel "
